@@ -50,6 +50,10 @@ LowerFrom(s, i) == IF i > Len(s) THEN ""
 Lower(s) == LowerFrom(s, 1)
 EqFold(a, b) == Lower(a) = Lower(b)
 
+\* printable ASCII; Go's strings.ToLower rewrites invalid UTF-8, so Host strings outside it are not interpreted
+PrintableStr == " !\"#$%&'()*+,-./0123456789:;<=>?@ABCDEFGHIJKLMNOPQRSTUVWXYZ[\\]^_`abcdefghijklmnopqrstuvwxyz{|}~"
+Printable == {Ch(PrintableStr, i) : i \in 1..Len(PrintableStr)}
+
 Spaces == {" ", "\t"}
 RECURSIVE TrimLeft(_)
 TrimLeft(s) == IF Len(s) > 0 /\ Ch(s, 1) \in Spaces THEN TrimLeft(Drop(s, 1)) ELSE s
